@@ -21,7 +21,8 @@ Accepted grammar (anything else raises Untranslatable naming line and construct)
              (short-circuit), x in / not in {int, ...}, x in / not in VOIGT_TO_STANDARD[.keys()|.values()],
              STANDARD_TO_VOIGT[.keys()|.values()], a if c else b
   integers   literals, + - * unary -, a << b with b a boolean or a provably non-negative term
-             (1 << a << b, 1 << (x + y + z)), int(bool), int(x), booleans used as integers
+             (1 << a << b, 1 << (x + y + z)), int(bool), int(x), booleans used as integers; a property body
+             that is an if-chain over total scalar results is folded into one (if c then a else b) term
   data       VOIGT_TO_STANDARD[x] (KeyError = None), STANDARD_TO_VOIGT[x], tuples / lists with *splices,
              x[const], fields and properties of the two classes, tuple(x), list(x), len(x),
              sorted((a, b)) on integers, sorted((a, b), key=lambda e: ...) and key=attrgetter("name")
@@ -29,8 +30,11 @@ Accepted grammar (anything else raises Untranslatable naming line and construct)
              order: translated as such, a DIFFERENT model), str(int), *(int(k) for k in s), *map(int, s),
              *[int(k) for k in s], cls(...), calls with positional / keyword / default / *args binding
              (arity errors = None), recursion (re-entry with identical arguments = RecursionError = None)
-  ignored    __repr__, calc_type, the Enum class and anything no entry point reaches; the message of a raise
-             (f-string / %-format / .format: not evaluated)
+  ignored    __repr__, calc_type, the Enum class and anything no entry point reaches (except that NO function of
+             the file may assign to / mutate module-level names, cls or self: purity gate); the argument of a
+             raise is not evaluated; f-strings, "..." % x and "...".format(x) are opaque message values (their
+             sub-expressions are evaluated, the formatting itself is assumed not to raise; any use other than
+             binding them to a local fails closed)
 Entry points (one Gallina definition each; same names and types as ever):
   strain_create args   = StrainRepresentation._(*args), args a list of ints of any length
   mod_create args      = ModulusRepresentation._(*args), likewise - except a single int, which is
@@ -844,6 +848,10 @@ class Ev:
             return self.ev_comp(e, env)
         if isinstance(e, ast.Lambda):
             return leaf(VLambda(e, env))
+        if isinstance(e, ast.JoinedStr):
+            # a message: its parts are evaluated (they may raise), the text itself is opaque - nothing can branch on it
+            parts = [v.value for v in e.values if isinstance(v, ast.FormattedValue)]
+            return bind(self.ev_seq(parts, env), lambda _vs: leaf(VOpaque("formatted string")))
         bail(e, "expression")
 
     def as_z(self, v, node):
@@ -854,6 +862,8 @@ class Ev:
         bail(node, "%r used as an integer" % (v,))
 
     def binop(self, e, a, b):
+        if isinstance(e.op, ast.Mod) and isinstance(a, VStrConst):
+            return VOpaque("formatted string")
         if isinstance(e.op, (ast.Add, ast.Sub, ast.Mult)):
             op = {ast.Add: "add", ast.Sub: "sub", ast.Mult: "mul"}[type(e.op)]
             return VInt(mk_arith(op, self.as_z(a, e), self.as_z(b, e)))
@@ -1049,6 +1059,8 @@ class Ev:
             bail(node, "%s.%s has a decorator outside the grammar" % (cname, name))
         if isinstance(v, VDict) and name in ("keys", "values"):
             return leaf(VDictMethod(v.which, name))
+        if isinstance(v, VStrConst) and name == "format":
+            return leaf(VOpaque("str.format"))
         bail(node, "attribute %s of %r" % (name, v))
 
     # ---- calls ----------------------------------------------------------------------------------------
@@ -1092,6 +1104,8 @@ class Ev:
             bail(node, "%s(%r, %r)" % (f.name, a, b))
         if isinstance(f, VBuiltin):
             return self.builtin(f.name, args, kw, node, long_)
+        if isinstance(f, VOpaque) and f.what == "str.format":
+            return leaf(VOpaque("formatted string"))
         bail(node, "call of %r" % (f,))
 
     def builtin(self, name, args, kw, node, long_):
@@ -1482,6 +1496,18 @@ def params_of(fn, skip, what):
 
 
 def translate(src: str) -> str:
+    """entry point used by the property modules; every failure is an Untranslatable (fail closed)"""
+    try:
+        return _translate(src)
+    except Untranslatable:
+        raise
+    except SyntaxError as e:
+        raise Untranslatable("cij/util/voigt.py does not parse: %s" % e)
+    except Exception as e:          # an internal error of the translator is a construct it cannot read
+        raise Untranslatable("translator internal error %s: %s" % (type(e).__name__, e))
+
+
+def _translate(src: str) -> str:
     import warnings
     with warnings.catch_warnings():
         warnings.simplefilter("ignore")
